@@ -1486,6 +1486,11 @@ func (fw *fworld) stopServer() {
 	if err := fw.srv.Close(); err != nil {
 		fmt.Printf("c16: server close: %v\n", err) // not part of the property
 	}
+	if fw.failed {
+		// something unexplained is already on record for this world (and judged by TLC); whether its
+		// accept loop still ends must not turn that into a harness error
+		return
+	}
 	t := time.NewTimer(budget)
 	defer t.Stop()
 	select {
